@@ -618,6 +618,7 @@ with hcall (fuel : nat) (cid : Z) (call : string) (args : list arg) (w : world) 
     if c_udp c then hr [AInt 0; ASym "err"] w
     else let '(n, ok, w1) := conn_writev f cid (segs_of args) w in hr [AInt n; err_sym ok] w1
   else if sym_eqb call "flush" then
+    if c_udp c then hr [ASym "nil"] w else
     if negb (c_opened c) then hr [ASym "err"] w else
     let '(r, w1) := el_write f cid 0 w in
     match r with
